@@ -188,12 +188,14 @@ CLAIMED = {
              "a generic soundness theorem lifts its verdict to every run: for EVERY list of token kinds (valid or not) the parser "
              "pushes at most 4*tokens+6 nodes (potential argument; the pinned capacity 5+2*tokens is refuted by a kernel-evaluated "
              "valid module, and was the cause of a panic on a repo test sample — fixed), and the cursor stays inside the token "
-             "array (a taken EndOfSource fails at once). Tie: on every input the real lexer accepts, the exact sequence of node "
+             "array (a taken EndOfSource fails at once), and the model never runs out of fuel (`parse_total`: every call follows a "
+             "consumed token or goes to a smaller rank, so six stack frames per token position suffice — the termination "
+             "argument of the recursive descent). Tie: on every input the real lexer accepts, the exact sequence of node "
              "variants in the real buffer (also after errors), declaration count and error codes must equal the model's. "
              "Totality / memory safety at run time is exercised, not proved: isolated workers run lex->parse->errors/"
              "build_header/as_xml on random bytes, mutated corpus, token soup, all token sequences up to length 2 (3 thorough), "
-             "density extremes, token-limit excess (E103). Partial: termination and the lexer's buffer bookkeeping are not "
-             "theorems; no sanitizer is used (not part of this technique).",
+             "density extremes, token-limit excess (E103). Partial: the lexer's buffer bookkeeping is not a theorem; the stack "
+             "depth the termination theorem bounds is unbounded in bytes (F26); no sanitizer is used (not part of this technique).",
         note="Trusted: Lean kernel, the hand-written table (tied by the node-sequence comparison), Debug formatting of ParseNode, "
              "harness. Known finding F26: stack exhaustion on bracket nesting >= 2000 (no recursion limit).",
         technique="Lean 4 proof by reflection (checked table + generic soundness, all token lists) + node-sequence correspondence + crash-classifying fuzz",
